@@ -210,6 +210,27 @@ func (g *c18Gen) generate(thorough bool, n int) {
 		s.Plan = h[1]
 		g.add(s)
 	}
+	// the plan that counts is the one the request arrives with, not the one the collection was created under: inserts
+	// of 6 points under the TINY plan (5 points per collection, 200 bytes per point) into collections created under
+	// BASIC, through both API versions; and one point of 300 bytes
+	six1 := make([]*jv, 6)
+	six2 := make([]*jv, 6)
+	for i := range six1 {
+		six1[i] = jObj("vector", jVec(1, 2, float32(i)))
+		six2[i] = jObj("size", jInt(int64(1000+i)))
+	}
+	for _, v := range []struct {
+		tag, path, user string
+		body           *jv
+	}{
+		{"plan:active-plan-v1-insert-over-quota", "/v1/collections/vcol/points", "vone", jObj("points", jArr(six1...))},
+		{"plan:active-plan-v2-insert-over-quota", "/v2/collections/rich/points", "alice", jObj("points", jArr(six2...))},
+		{"plan:active-plan-v1-point-size", "/v1/collections/vcol/points", "vone", jObj("points", jArr(jObj("vector", jVec(1, 2, 3), "metadata", jStr(strings.Repeat("m", 300)))))},
+	} {
+		s := spec(v.tag, "valid", "POST", v.path, v.user, ctJ, v.body.JSON())
+		s.Plan = "TINY"
+		g.add(s)
+	}
 	for _, ct := range []string{"", "text/plain", "application/json; charset=utf-8", "APPLICATION/JSON", "application/x-msgpack", "application/msgpack "} {
 		for _, b := range bases {
 			g.add(spec("content-type:"+ct+":"+b.name, "mutated", b.method, b.path, b.user, ct, b.body.JSON()))
